@@ -120,9 +120,12 @@ def cmd_check(prop: str, tier: str) -> int:
                 lines.append(f"KNOWN-FINDING: property={prop} {ob.construct}: {known_keys[ob.key].get('what_fails', ob.desc)}")
             else:
                 n_viol += 1
-                path = write_replay(prop, ob, repo)
-                lines.append(f"VIOLATION property={prop} replay={path}")
-                lines.append("  " + ob.line())
+                if n_viol <= 25:
+                    path = write_replay(prop, ob, repo)
+                    lines.append(f"VIOLATION property={prop} replay={path}")
+                    lines.append("  " + ob.line())
+        if n_viol > 25:
+            lines.append(f"  ... and {n_viol - 25} further violations of {prop} (see evidence file)")
         if n_viol:
             status = 1
         elif ctx.undecideds:
